@@ -169,7 +169,7 @@ THOROUGH = [('sc221', 3), ('sc221v', 2), ('hcp211', 2), ('b2-211', 3), ('fcc122v
 
 def sections(tier):
     S = run.Section
-    return [S('jit:%s:%d' % (c, m), equiv(c, m), budget_s=170 if tier == 'quick' else 3000, replayer='jit', config=c,
+    return [S('jit:%s:%d' % (c, m), equiv(c, m), budget_s=170 if tier == 'quick' else 1200, replayer='jit', config=c,
               maxpaths=200000, timeout_ms=10000) for c, m in (QUICK if tier == 'quick' else THOROUGH)]
 
 
